@@ -497,7 +497,7 @@ mod repr {
 
     #[inline]
     fn are_dword_low_bits_nonzero(dword: DoubleWord, n: usize) -> bool {
-        let n = n.min(WORD_BITS_USIZE) as u32;
+        let n = n.min(DWORD_BITS_USIZE) as u32;
         dword & ones_dword(n) != 0
     }
 
